@@ -86,7 +86,7 @@ def lemmas_for(apps, with_pi, level='all'):
     for t in apps.get('ln', []):
         x = t.arg(0)
         L += [z3.Implies(x > 0, UF['exp'](t) == x), z3.Implies(x == 1, t == 0), z3.Implies(x > 1, t > 0), z3.Implies(z3.And(x > 0, x < 1), t < 0),
-              z3.Implies(x == 10, z3.And(t > R('2.302585'), t < R('2.302586'))),
+              z3.Implies(x == 10, z3.And(t > R('2.30258509'), t < R('2.30258510'))),
               z3.Implies(x == 2, z3.And(t > R('0.693147'), t < R('0.693148')))]
     cs = {}
     for n in ('cos', 'sin'):
@@ -179,6 +179,73 @@ def basic_lemmas(apps, with_pi):
     for t in apps.get('powr', []):
         L.append(z3.Implies(t.arg(0) > 0, t > 0))
     return L
+
+
+def abstract_all(terms, want_map=False):
+    """replace every application of ANY uninterpreted function (special functions and array element functions) by a fresh
+    constant, innermost first.  The result is pure arithmetic; valid there => valid originally (congruence only lost).
+    With want_map the list of (constant, decl, argument terms in abstracted form) is returned as well."""
+    terms = [z3.simplify(t) for t in terms]
+    n = 0
+    amap = []
+    for _ in range(16):
+        inner = {}
+        seen = set()
+        stack = list(terms)
+        while stack:
+            t = stack.pop()
+            if t.get_id() in seen:
+                continue
+            seen.add(t.get_id())
+            ch = t.children()
+            if z3.is_app(t) and t.num_args() > 0 and (t.decl().kind() == z3.Z3_OP_UNINTERPRETED or (t.decl().kind() == z3.Z3_OP_TO_REAL and not z3.is_int_value(t.arg(0)))):
+                if not any(_has_uninterp_app(c) for c in ch):
+                    inner[t.get_id()] = t
+                    continue
+            stack.extend(ch)
+        if not inner:
+            break
+        subs = []
+        for t in inner.values():
+            v = z3.Const(f'abs!{n}', t.sort())
+            n += 1
+            subs.append((t, v))
+            amap.append((v, t.decl(), [t.arg(k) for k in range(t.num_args())]))
+        terms = [z3.simplify(z3.substitute(x, *subs)) for x in terms]
+    return (terms, amap) if want_map else terms
+
+
+def model_respects_congruence(m, amap):
+    """does a model of the abstracted formula interpret equal-argument applications of the same function equally?
+    If so it extends to a model of the original formula (the functions are otherwise unconstrained)."""
+    by_decl = {}
+    for v, d, args in amap:
+        by_decl.setdefault(d.name(), []).append((v, args))
+    for items in by_decl.values():
+        vals = []
+        for v, args in items:
+            av = tuple(str(z3.simplify(m.eval(a, model_completion=True))) for a in args)
+            vv = str(z3.simplify(m.eval(v, model_completion=True)))
+            vals.append((av, vv))
+        seen = {}
+        for av, vv in vals:
+            if av in seen and seen[av] != vv:
+                return False
+            seen[av] = vv
+    return True
+
+
+def _has_uninterp_app(t):
+    seen, st = set(), [t]
+    while st:
+        x = st.pop()
+        if x.get_id() in seen:
+            continue
+        seen.add(x.get_id())
+        if z3.is_app(x) and x.num_args() > 0 and (x.decl().kind() == z3.Z3_OP_UNINTERPRETED or (x.decl().kind() == z3.Z3_OP_TO_REAL and not z3.is_int_value(x.arg(0)))):
+            return True
+        st.extend(x.children())
+    return False
 
 
 def abstract_ufs(terms):
